@@ -270,6 +270,54 @@ def _n4_chunk(params, lo, hi):
     return r
 
 
+L5_PAIRS = sorted([(0, x) for x in (1, 2, 3, 4)] + [(x, 4) for x in (1, 2, 3)] + [(u, v) for u in (1, 2, 3) for v in (1, 2, 3) if u != v])
+
+
+def _layered5_chunk(params, lo, hi):
+    """5 nodes, source 0 with out-arcs only, sink 4 with in-arcs only, k of the 13 possible arcs with unit capacity and
+    costs in {0,1,2}; min_cost_flow from 0 to 4 with demand 1 and 2, graph dict built in arc order and in reverse arc
+    order (the order in which Bellman-Ford meets the arcs decides how many sweeps it needs).
+    index = comb_index * 3^k + cost_code"""
+    from solvor.flow import min_cost_flow
+
+    k = params
+    per = 3**k
+    r = new_result()
+    c_lo, c_hi = lo // per, (hi - 1) // per + 1
+    for ci, cset in enumerate(combinations_range(len(L5_PAIRS), k, c_lo, c_hi), start=c_lo):
+        for code in range(per):
+            idx = ci * per + code
+            if idx < lo or idx >= hi:
+                continue
+            cs = digits(code, 3, k)
+            arcs = [(L5_PAIRS[cset[i]][0], L5_PAIRS[cset[i]][1], 1, cs[i]) for i in range(k)]
+            table = oracle_table(5, arcs)
+            for order in (0, 1):
+                graph = {}
+                for u, v, cap, c in arcs if order == 0 else reversed(arcs):
+                    graph.setdefault(u, []).append((v, cap, c))
+                for demand in (1, 2):
+                    sup = [demand, 0, 0, 0, -demand]
+
+                    def call():
+                        try:
+                            return min_cost_flow({a: list(b) for a, b in graph.items()}, 0, 4, demand), None
+                        except Exception as ex:  # noqa: BLE001
+                            return None, f"{type(ex).__name__}: {ex}"
+
+                    v, verdict = guarded(call, 2.0, 5_000_000)
+                    res, err = (None, None) if verdict else v
+                    errs, label = judge_result("min_cost_flow", res, verdict or err, 5, arcs, sup, table)
+                    wit = {"n": 5, "arcs": [list(a) for a in arcs], "source": 0, "sink": 4, "demand": demand, "dict_order": order, "layered5": True}
+                    _rec(r, "min_cost_flow", errs, label, table, sup, wit, f"min_cost_flow({graph}, 0, 4, {demand})")
+        if len(r["violations"]) >= 40 or r["counters"]["hangs"] >= 2:
+            r["capped"] = True
+            break
+    if not r["samples"] and hi > lo:
+        r["samples"].append({"family": "layered5", "k": k})
+    return r
+
+
 def _assign_chunk(params, lo, hi):
     from solvor.flow import solve_assignment
 
@@ -329,6 +377,8 @@ def jobs(tier, seed):
     for k in (1, 2, 3):
         cs = (-1, 0, 1, 2) if (k < 3 or tier == "thorough") else (-1, 1)
         js.append(Job(f"n4_arcsets_{k}", comb(12, k) * (2 * len(cs)) ** k, _n4_chunk, (k, (1, 2), cs), describe=f"k distinct ordered pairs on 4 nodes, caps {{1,2}}, costs {cs}; both list orders"))
+    for k in (4, 5, 6):
+        js.append(Job(f"n5_layered_{k}arcs_unit_costs012", comb(len(L5_PAIRS), k) * 3**k, _layered5_chunk, k, describe="5 nodes, source out-arcs only, sink in-arcs only, k unit-capacity arcs with costs {0,1,2}, demand 1 and 2, two dict orders: the smallest networks on which Bellman-Ford needs a sweep that only lowers labels"))
     for rows in (1, 2, 3):
         for cols in (1, 2, 3):
             js.append(Job(f"assignment_{rows}x{cols}", 4 ** (rows * cols), _assign_chunk, (rows, cols), describe="solve_assignment on all matrices over {-1,0,1,2}"))
@@ -351,6 +401,20 @@ def _n4_block(params, lo, hi):
 def replay(v):
     w = v["witness"]
     r = new_result()
+    if w.get("layered5"):
+        from solvor.flow import min_cost_flow
+
+        arcs = [tuple(a) for a in w["arcs"]]
+        graph = {}
+        for u, x, cap, c in arcs if w["dict_order"] == 0 else reversed(arcs):
+            graph.setdefault(u, []).append((x, cap, c))
+        sup = [w["demand"], 0, 0, 0, -w["demand"]]
+        try:
+            res, err = min_cost_flow(graph, 0, 4, w["demand"]), None
+        except Exception as ex:  # noqa: BLE001
+            res, err = None, f"{type(ex).__name__}: {ex}"
+        errs, _ = judge_result("min_cost_flow", res, err, 5, arcs, sup, oracle_table(5, arcs))
+        return {"function": "min_cost_flow", "kind": errs[0][0], "detail": errs[0][1]} if errs else None
     if v["function"] == "solve_assignment":
         m = w["cost_matrix"]
         rows, cols = len(m), len(m[0])
